@@ -115,7 +115,7 @@ var TagPool = []string{"x", "X", "xy", "y", "5", "2.25", "", "or", "z z"}
 var NumTagPool = []string{"5", "10", "2.25", "-1", "0.5", "7"}
 var IntPool = []int64{0, 1, -1, 5, 7, 10, 2147483647, -2147483648, 9223372036854775807, -9223372036854775807}
 var I32Pool = []int32{0, 1, -1, 5, 7, 10, 2147483647, -2147483648}
-var FloatPool = []float64{0, 0.5, 2.25, -1, 5, 7, 10, 1e10, -0.5}
+var FloatPool = []float64{0, 0.5, 2.25, -1, 5, 7, 10, 1e10, -0.5, 0.3, 0.1 + 0.2, 1e-10, 5e-10} // incl. values closer than 1e-9 to each other
 var TimePool = []time.Time{
 	time.Date(2020, 1, 1, 0, 0, 0, 0, time.UTC), time.Date(2020, 1, 1, 2, 0, 0, 0, time.FixedZone("p2", 7200)), // same instant as the first
 	time.Date(2021, 6, 15, 12, 30, 0, 0, time.UTC), time.Date(1999, 12, 31, 23, 59, 59, 0, time.UTC), time.Date(2021, 6, 15, 12, 30, 0, 500, time.UTC),
@@ -140,7 +140,7 @@ func GenWorld(r *core.Rand, maxThings int, small bool) *World {
 	sp, ip, fp := StrPool, IntPool, FloatPool
 	if small { // shrunk pools force ties and null sort keys (C02)
 		// the empty string is a value, not a null: both occur among the sort keys
-		sp, ip, fp = []string{"a", "", "A", "ab", "b"}, IntPool[:4], FloatPool[:4]
+		sp, ip, fp = []string{"a", "", "A", "ab", "b"}, IntPool[:4], []float64{0, 0.5, 0.3, 0.1 + 0.2, 1e-10, -1}
 	}
 	for _, id := range core.Subset(r, OwnerIds, 0.6) {
 		w.Rows[Owners][id] = &Row{Id: id, V: map[string]any{"name": pickNullable(r, sp, 0.25), "age": pickNullable(r, ip, 0.25), "active": pickNullable(r, []bool{true, false}, 0.25),
